@@ -2,7 +2,7 @@
    Theorem statements only; proofs (by computation in the kernel) in Sweeps.v, over the range the
    property states: k <= 6, n <= 12, lattices up to 6 x 6; targets: every complex on <= 3 points. *)
 From Coq Require Import String ZArith Bool Arith List.
-From SV Require Import Names Rep Complex Homology Filtration Gen World Small Sweeps.
+From SV Require Import Names Rep Complex Homology Filtration Gen World Small Sweeps VInv AwbSpec VSets GenSets.
 
 (* k_simplex(k): C(k+1, j+1) simplices of order j, Betti 1,0,..,0, top simplex named as asked;
    k_void(k): all proper faces of a (k+1)-simplex, a k-sphere; k_skeleton(k): k+1 points and all
@@ -24,3 +24,29 @@ Print Assumptions C18_lattices_in_range.
 Theorem C18_target_intact_upto3_partial : forall c, In c complexes3 -> chk_gen_frame c = true.
 Proof. exact generators_frame_upto3. Qed.
 Print Assumptions C18_target_intact_upto3_partial.
+
+(* EVERY COMPLEX THAT MEETS THE VERTEX-SET READING, EVERY k >= 1: k_simplex(k) creates k+1 points that
+   were not there; the sets of points that carry a simplex afterwards are those that did before and
+   the non-empty subsets of the new points; every pre-existing simplex keeps order, faces, basis *)
+Theorem C18_k_simplex_vertex_sets :
+  forall k id attr r r', vinv r -> 1 <= k -> k_simplex k id attr r = (r', Ok tt) ->
+  exists new, length new = S k /\ NoDup new /\ (forall p, In p new -> containsSimplex r p = false) /\
+    vinv r' /\
+    (forall t, containsSimplex r t = true ->
+       containsSimplex r' t = true /\ orderOf r' t = orderOf r t /\ faces r' t = faces r t /\ basisOf r' t = basisOf r t) /\
+    (forall B, NoDup B -> B <> nil ->
+       ((exists t, containsSimplex r' t = true /\ sameset (basisOf r' t) B) <->
+        (exists t, containsSimplex r t = true /\ sameset (basisOf r t) B) \/ incl B new)).
+Proof. exact k_simplex_vertex_sets. Qed.
+Print Assumptions C18_k_simplex_vertex_sets.
+(* k_void(k): the same on k+2 new points without the top simplex -- the proper non-empty subsets *)
+Theorem C18_k_void_vertex_sets :
+  forall k r r', vinv r -> k_void k r = (r', Ok tt) ->
+  exists new, length new = S (S k) /\ NoDup new /\ (forall p, In p new -> containsSimplex r p = false) /\
+    vinv r' /\
+    (forall t, containsSimplex r t = true -> containsSimplex r' t = true /\ sameset (basisOf r' t) (basisOf r t)) /\
+    (forall B, NoDup B -> B <> nil ->
+       ((exists t, containsSimplex r' t = true /\ sameset (basisOf r' t) B) <->
+        (exists t, containsSimplex r t = true /\ sameset (basisOf r t) B) \/ (incl B new /\ ~ incl new B))).
+Proof. exact k_void_vertex_sets. Qed.
+Print Assumptions C18_k_void_vertex_sets.
